@@ -28,6 +28,24 @@ def near_twin(rng, raw):
     return base, twin
 
 
+def print_twin(rng, rows):
+    """the same rows with ONE coefficient larger by a factor 1 + 2^-14: a different constraint (0.06 apart at |v| = 1000) that prints
+    identically with four significant digits -- whatever is remembered between calls under a printed form confuses the two"""
+    if not rows:
+        return None
+    k = rng.randrange(len(rows))
+    co, c = rows[k]
+    if not co:
+        return None
+    v = rng.choice(sorted(co))
+    out = [(dict(a), b) for a, b in rows]
+    out[k][0][v] = co[v] * (1 + 2.0**-14)
+    return out
+
+
+RENAMES = ["b", "h", "k", "m", "q", "t", "y"]
+
+
 def weakened(raw, d):
     co, c = raw
     return (dict(co), c + d)
@@ -63,6 +81,19 @@ def viewpoint_pair(rng, shape, dyadic=0.0):
                     dst[part].append(twin)
                 else:
                     dst[part].append(r if how < 0.3 else (scaled(r, 2) if how < 0.55 else weakened(r, rng.randint(1, 2))))
+    # one viewpoint assumes what the other guarantees, word for word (listed first, last or anywhere)
+    for src, dst in ((d1, d2), (d2, d1)):
+        cands = [r for r in src["a"] if set(r[0]) <= set(dst["inv"]) | set(dst["outv"])]
+        if cands and rng.random() < 0.35:
+            dst["g"].insert(rng.choice([0, 0, len(dst["g"]), rng.randint(0, len(dst["g"]))]), rng.choice(cands))
+    if rng.random() < 0.5:
+        # names carry no meaning: inputs need not sort before outputs
+        old = sorted(set(d1["inv"] + d1["outv"] + d2["inv"] + d2["outv"]))
+        m = dict(zip(old, rng.sample(RENAMES, len(old))))
+        for d in (d1, d2):
+            d["inv"], d["outv"] = [m[v] for v in d["inv"]], [m[v] for v in d["outv"]]
+            for part in ("a", "g"):
+                d[part] = [({m[v]: a for v, a in co.items()}, c) for co, c in d[part]]
     return d1, d2
 
 
@@ -83,7 +114,12 @@ def gen_cases(tier):
                 continue
         else:
             continue
-        cases.append({"id": i + 1, "raw": [d1, d2], "shape": shape})
+        case = {"id": i + 1, "raw": [d1, d2], "shape": shape}
+        if i % 3 == 0 and shape != "clash":
+            tw = print_twin(rng, d1["g"])
+            if tw:
+                case["twin"] = tw
+        cases.append(case)
     return cases
 
 
@@ -94,6 +130,14 @@ def run_case(case):
         if case.get("only_event") and case["only_event"] != j:
             continue
         evs.append(ops.ev_merge(gen.mk_contract(x), gen.mk_contract(y), ["exact", "itf"]))
+    if case.get("twin") and not case.get("only_event"):
+        # the same merges again, in the same process, with one operand replaced by a print twin (stored exactly: simplify=False)
+        t1 = dict(d1, g=case["twin"])
+        for x, y in ((t1, d2), (d2, t1)):
+            try:
+                evs.append(ops.ev_merge(gen.mk_contract(x, simplify=False), gen.mk_contract(y, simplify=False), ["exact", "itf"]))
+            except ValueError:
+                pass
     return {"id": case["id"], "ev": evs}
 
 
@@ -101,6 +145,8 @@ def main(tier, replay=None):
     return opsprop.run(
         PROP, tier, gen_cases(tier), run_case,
         "one trace per pair of viewpoints (shared inputs / shared outputs / same interface / disjoint / clashing), planted "
-        "duplicated, scaled and weakened rows across the two; two events: both operand orders; non-trivial = merge returned",
+        "duplicated, scaled and weakened rows across the two, an assumption of one repeated word for word among the guarantees of the other, names "
+        "in any alphabetical relation; two events: both operand orders, and for a third of the pairs two more with one operand replaced by a twin "
+        "that prints identically (one coefficient larger by 2^-14 of itself); non-trivial = merge returned",
         replay=replay, design=("Alg_merge_quick.cfg", "Alg_merge.cfg"), nontrivial=lambda ev: ev["exc"] == "none",
     )
